@@ -22,12 +22,18 @@ RULE = (
     "nonlinear family (exponential, powerlaw, gausspeak, lorentz, sinusoid, logistic; densities normal/expdens/mixture) as xy / indexed / hist / unbinned fit; "
     "data = model + declared noise; sources: y / x / model-relative / correlated; costs chi2, chi2_pointwise, nll_gaussian, nll_poisson, nllr_poisson, gauss_approximation, unbinned nll; "
     "dynamic_error_algorithm in {nonlinear, iterative}; random fixed / limited subsets incl. limits that cut the optimum off; both backends fitted on every case; "
+    "every fourth case of a shard is a MultiFit of two xy / indexed members of nonlinear families (same family: all parameters shared; exponential+powerlaw, gausspeak+lorentz: "
+    "partly shared; signature order permuted with p = 0.3), data of both members drawn from one truth, every member with its own sources, no shared source; per member "
+    "'dynamic' (x source or source relative to the model) or 'static' (absolute y sources only) in all combinations and both orders (mixed : all-dynamic : none-dynamic = 4 : 1 : 1); "
+    "fixed / limited parameters declared on the MultiFit; start values 7 % (all families) or up to 30 % (monotone families, p = 0.7) off the defaults; "
     "non-trivial = parameter-dependent covariance (x or model-relative source) or an active limit or a fixed parameter; distinct by case hash"
 )
 ASSUMPTIONS = [
     "well-posed problems only: data drawn from the model with independent noise (the base y source is uncorrelated; correlated sources come on top), start within the basin of the truth; a backend disagreement where each backend started at the other optimum stays there (two stable local minima) is discarded and counted; cases whose reference Hessian (at the optimum over interior free parameters, and at any lower point found over all free parameters) is not positive definite or has cond > 1e4 are discarded and counted",
     "local-minimum clause: violation iff an admissible point (probes at +-{0.1,0.5,1} sigma per free axis, 8 random directions, Nelder-Mead polish) has reference cost lower than at the reported optimum by more than 1e-3 (iminuit) / 5e-3 (scipy)",
     "iterative algorithm: the local-minimum clause is replaced by the fixed-point clause (minimising the cost with the covariance frozen at the reported optimum must stay within 2e-2 reference sigma for iminuit, 1e-1 for scipy = two scipy states of 5e-2 each; observed 0.061)",
+    "multi-fits: the reference objective is the sum of the members' reference costs over the union of the parameter names (members share parameters only; sources shared through MultiFit.add_error are the workload of C10 / C11); the members use the default 'nonlinear' algorithm (the MultiFit's own dynamic_error_algorithm argument is not consulted by kafe2); the same clauses, tolerances and well-posedness rules as for single fits apply to the joint optimum",
+    "a local-minimum alarm of the scipy backend is attributed to the open scipy-adapter finding by the 'do_fit() again continues' signature only if iminuit's optimum of the same case passed the clause (or rests on a limit): a failure that both backends share is not a property of the scipy adapter",
     "cross-backend clause uses sigma from the reference Hessian over interior free parameters (1e-1 sigma = sum of the per-backend tolerances of C05, rounded up); a parameter on a limit must be on the same limit for both backends",
 ]
 ANCHORS = [
@@ -40,6 +46,13 @@ ANCHORS = [
     ("kafe2.fit.xy.fit", "XYFit._get_node_names_to_freeze"),
     ("kafe2.fit.xy.fit", "XYFit._second_fit_needed"),
     ("kafe2.fit.xy.fit", "XYFit._iterative_fits_needed"),
+    ("kafe2.fit.multi.fit", "MultiFit.do_fit"),
+    ("kafe2.fit.multi.fit", "MultiFit._second_fit_needed"),
+    ("kafe2.fit.multi.fit", "MultiFit._iterative_fits_needed"),
+    ("kafe2.fit.multi.fit", "MultiFit._set_data_as_model_ref"),
+    ("kafe2.fit.multi.fit", "MultiFit._pre_fit_iteration"),
+    ("kafe2.fit.multi.fit", "MultiFit._post_fit_iteration"),
+    ("kafe2.fit.multi.fit", "MultiFit.fix_parameter"),
     ("kafe2.core.fitters.nexus_fitter", "NexusFitter.fix_parameter"),
     ("kafe2.core.fitters.nexus_fitter", "NexusFitter.limit_parameter"),
     ("kafe2.core.minimizers.iminuit_minimizer", "MinimizerIMinuit.limit"),
@@ -53,10 +66,13 @@ ANCHORS = [
 
 def floors(tier):
     return {
-        "comparisons": {"local-minimum": 60, "fixed-exact": 30, "within-limits": 30, "backends-agree": 40, "iterative-fixed-point": 15},
-        "ops": ["do_fit"],
+        "comparisons": {"local-minimum": 60, "fixed-exact": 30, "within-limits": 30, "backends-agree": 40, "iterative-fixed-point": 15,
+                        "local-minimum(multi, mixed)": 16, "local-minimum(multi, all-dynamic)": 4, "local-minimum(multi, none-dynamic)": 4, "backends-agree(multi)": 12, "fixed-exact(multi)": 4},
+        "ops": ["do_fit", "multi.do_fit"],
         "reach": ["%s:%s" % a for a in ANCHORS],
-        "strata": ["xy", "indexed", "hist", "unbinned", "x-source", "model-relative-source", "iterative", "nonlinear", "fixed", "limited", "active-limit", "flat-start-correlated-x"],
+        "strata": ["xy", "indexed", "hist", "unbinned", "x-source", "model-relative-source", "iterative", "nonlinear", "fixed", "limited", "active-limit", "flat-start-correlated-x",
+                   "multi", "multi:mixed", "multi:mixed:dynamic-first", "multi:mixed:static-first", "multi:all-dynamic", "multi:none-dynamic", "multi:x-source", "multi:model-relative-source", "multi:far-start", "multi:partly-shared-parameters"],
+        "sets": {"multi-member": 12},
         "distinct_nontrivial": 40,
     }
 
@@ -510,7 +526,7 @@ def run_case(ctx, case):
                 "local-minimum",
                 best >= c0 - tol,
                 lambda: dict(d, reference_cost_at_optimum=c0, lower_point=best_p, reference_cost_there=best, improvement=c0 - best, tolerance=tol, sigma_ref=sig_full, on_limit=on_limit),
-                key=(lambda: premature_scipy(case, results["scipy"], names, fixed, limited, tol)) if minimizer == "scipy" else (lambda: stuck_on_limit(case, results["iminuit"], names, fixed, limited, dict(on_limit), best_p, best, tol)),
+                key=(lambda: premature_scipy(case, results["scipy"], names, fixed, limited, tol, refit_signature=not (premature.get("iminuit") and not stuck.get("iminuit")))) if minimizer == "scipy" else (lambda: stuck_on_limit(case, results["iminuit"], names, fixed, limited, dict(on_limit), best_p, best, tol)),
             )
             if multi:
                 ctx._count("local-minimum(multi, %s)" % mix)
@@ -584,7 +600,7 @@ def two_attractors(case, names, pa, pb, s):
         return False
 
 
-def premature_scipy(case, mb, names, fixed, limited, tol):
+def premature_scipy(case, mb, names, fixed, limited, tol, refit_signature=True):
     """open finding: the scipy adapter accepts whatever scipy.optimize.minimize returns (success flag ignored; with limits L-BFGS-B runs
     with ftol = 1e-6 relative reduction per iteration).  Signature / explain-check: simply calling do_fit() again on the same object
     (same backend, nothing else changed) lowers the reference cost by more than the tolerance."""
@@ -608,6 +624,8 @@ def premature_scipy(case, mb, names, fixed, limited, tol):
         if res is not None and not bool(getattr(res, "success", True)):
             return "C06/scipy-backend-accepts-unconverged-result"
         # signature 1: calling do_fit() again (nothing else changed) continues to a lower cost
+        if not refit_signature:
+            return None
         mb.fit.do_fit()
         c1 = cost(optimum(mb))
         if c1 < c0 - tol:
